@@ -17,6 +17,12 @@ Checks (all on the observables the property names):
       with the implementation's table, counts and with the generated structure
   (4) sanity.metadata / sanity.orders / sanity.categories report none of the defects autocorrect repairs
   (5) on content the model classifies as clean, autocorrect=True and False give equal instances
+  (6) ordinal: after EVERY parse the ballot list is read under both documented names, instance.orders and its alias
+      instance.preferences (same ballots required; `preferences is orders` is a recorded statistic);
+      preflibtools.properties.basic (largest/smallest_ballot, *_indif, is_strict, is_complete, is_approval,
+      num_different_preferences ...) on the autocorrected instance must equal the values computed from the ballot
+      lines; in ~12% of the ordinal cases the parsed object is continued with append_order / append_order_list and
+      re-observed (orders = preferences, first-occurrence list, multiplicity = sums + 1 per appended order, counters)
 """
 import os
 import random
@@ -256,12 +262,25 @@ def gen_struct(rng, kind, clean):
         hdr = hdr + cnt + names
     if dirty and rng.random() < 0.05:
         hdr.append(["h", rng.choice(["# ALTERNATIVE NAME x: y", "# CATEGORY NAME: none", "#", "# SOMETHING: 1"]), 0, ""])
+    cont = None
+    if kind == "ord" and rng.random() < 0.12:
+        def strict_of(b):
+            return [cl[0] for cl in b] if all(len(cl) == 1 for cl in b) else None
+        picks = []
+        for _ in range(rng.randint(1, 3)):
+            b = rng.choice(pool) if rng.random() < 0.6 else c01.rand_order(rng, ids + [max(ids) + 1])
+            picks.append([list(cl) for cl in b])
+        if rng.random() < 0.5:
+            flat = [strict_of(b) or rng.sample(ids, rng.randint(1, len(ids))) for b in picks]
+            cont = ["append_order", flat]
+        else:
+            cont = ["append_order_list", picks]
     eol = rng.choice(["\n", "\n", "\n", "\r\n", "\r"])
-    return {"kind": kind, "dt": dt, "hdr": hdr, "body": body, "eol": eol, "final": rng.random() < 0.85,
+    return {"kind": kind, "cont": cont, "dt": dt, "hdr": hdr, "body": body, "eol": eol, "final": rng.random() < 0.85,
             "clean": bool(clean), "malformed": malformed}
 
 
-def fixed_struct(kind, alt_names, cat_names, body, dt=None, counts=None):
+def fixed_struct(kind, alt_names, cat_names, body, dt=None, counts=None, cont=None):
     """hand-made content: names = list of (id, name); body = list of (mult, ballot)"""
     dt = "cat" if kind == "cat" else (dt or "soc")
     hdr = [["h", "# FILE NAME: f." + dt, 0, ""], ["h", "# DATA TYPE: " + dt, 0, ""]]
@@ -277,7 +296,7 @@ def fixed_struct(kind, alt_names, cat_names, body, dt=None, counts=None):
         txt = cat_ballot_text(rng, b) if kind == "cat" else ord_ballot_text(rng, b)
         lines.append(["%d: %s" % (mult, txt), mult, [list(c) for c in b]])
     return {"kind": kind, "dt": dt, "hdr": hdr, "body": lines, "eol": "\n", "final": True, "clean": False,
-            "malformed": False}
+            "malformed": False, "cont": cont}
 
 
 def seq_over(pool, n):
@@ -329,6 +348,14 @@ def generate(tier, seed):
                     out.append(mk_case(st, exh=4))
         for x, y in ((2 ** 52, 2 ** 52 + 1), (2 ** 53 - 1, 2), (2 ** 53, 1), (2 ** 52 + 1, 2 ** 52 + 2)):
             out.append(mk_case(fixed_struct(kind, [(1, "a"), (2, "b")], cn, [(x, b1), (y, b1), (1, b1)], dt="soc"), exh=4))
+    # repeated lines, then the parsed object is extended: both names of the ballot list must follow
+    bl2 = [(2, [[1], [2]]), (3, [[2], [1]]), (1, [[1, 2]])]
+    for body in seq_over(bl2, 3):
+        if not body:
+            continue
+        for cont in (["append_order", [[1, 2]]], ["append_order", [[2, 1], [3, 1, 2]]],
+                     ["append_order_list", [[[1, 2]], [[1], [2]]]], ["append_order_list", [[[2], [1, 3]]]]):
+            out.append(mk_case(fixed_struct("ord", [(1, "a"), (2, "b")], [], list(body), dt="toi", cont=cont), exh=5))
     if not quick:
         bl = [(1, [[1], [2]]), (5, [[1], [2]]), (1, [[2, 1]]), (5, [[2, 1]])]
         for body in seq_over(bl, 4):
@@ -371,7 +398,42 @@ def _sanity(kind, inst):
     return out
 
 
-def _one(kind, dt, text, entry, d, autocorrect):
+BASIC = ["num_alternatives", "num_voters", "num_different_preferences", "largest_ballot", "smallest_ballot",
+         "max_num_indif", "min_num_indif", "largest_indif", "smallest_indif", "is_approval", "is_complete"]
+
+
+def _views(kind, inst):
+    """the ballot list under every name the class documents: OrdinalInstance.orders and its alias .preferences"""
+    if kind == "cat":
+        return {}
+    return {"prefs": [[list(cl) for cl in o] for o in inst.preferences], "alias": inst.preferences is inst.orders}
+
+
+def _basic(kind, inst):
+    """preflibtools.properties.basic on the parsed instance (max()/min() need at least one non-empty ballot)"""
+    from preflibtools.properties import basic
+    ballots = inst.preferences
+    if not ballots or any(len(b) == 0 for b in ballots) or (kind == "ord" and not inst.orders):
+        return None
+    out = {f: getattr(basic, f)(inst) for f in BASIC}
+    if kind == "ord":
+        out["is_strict"] = basic.is_strict(inst)
+    return {k: int(v) for k, v in out.items()}
+
+
+def _continue(inst, cont):
+    fn, orders = cont
+    if fn == "append_order":
+        for o in orders:
+            inst.append_order(list(o))
+    else:
+        inst.append_order_list([tuple(tuple(cl) for cl in o) for o in orders])
+    res = {"dump": _dump("ord", inst)}
+    res.update(_views("ord", inst))
+    return res
+
+
+def _one(kind, dt, text, entry, d, autocorrect, cont=None):
     inst = _new(kind)
     if entry == "file":
         p = os.path.join(d, "r." + dt)
@@ -380,8 +442,12 @@ def _one(kind, dt, text, entry, d, autocorrect):
     else:
         inst.parse_str(text, dt, autocorrect=autocorrect)
     res = {"dump": _dump(kind, inst)}
+    res.update(_views(kind, inst))
     if autocorrect:
         res["sanity"] = _sanity(kind, inst)
+        res["basic"] = guarded(_basic, kind, inst)
+        if cont and kind == "ord":
+            res["cont"] = guarded(_continue, inst, cont)
     return res
 
 
@@ -394,7 +460,8 @@ def impl(c):
         out = {}
         for entry in ("file", "str"):
             for au in (True, False):
-                out[entry + ("T" if au else "F")] = guarded(_one, kind, dt, text, entry, d, au)
+                out[entry + ("T" if au else "F")] = guarded(_one, kind, dt, text, entry, d, au,
+                                                            (c["tags"].get("struct") or {}).get("cont"))
         return out
     finally:
         shutil.rmtree(d, ignore_errors=True)
@@ -512,6 +579,64 @@ def check_direct(kind, st, d):
     return None
 
 
+def check_basic(kind, st, o, got):
+    """preflibtools.properties.basic on the autocorrected instance against the generated ballot lines"""
+    bal = [b[2] for b in st["body"] if b[1] is not None]
+    if not bal or any(len(b) == 0 for b in bal):
+        return None
+    if got[0] != 0 or got[1] is None:
+        return "properties.basic on the autocorrected instance: %r" % (got,)
+    na = o["na"]
+    sizes = [sum(len(cl) for cl in b) for b in bal]
+    indif = [len([cl for cl in b if len(cl) > 1]) for b in bal]
+    cls = [len(cl) for b in bal for cl in b if len(cl) > 0]
+    complete = int(min(sizes) == na)
+    want = {"num_alternatives": na, "num_voters": sum(b[1] for b in st["body"] if b[1] is not None),
+            "num_different_preferences": len({proto.enc(b) for b in bal}),
+            "largest_ballot": max(sizes), "smallest_ballot": min(sizes), "max_num_indif": max(indif + [0]),
+            "min_num_indif": min(indif + [na]), "largest_indif": max(cls + [0]), "smallest_indif": min(cls + [na]),
+            "is_complete": complete}
+    if kind == "ord":
+        mlen = max(len(b) for b in bal)
+        want["is_approval"] = int(mlen == 1 or (mlen == 2 and complete == 1))
+        want["is_strict"] = int(max(cls + [0]) == 1)
+    else:
+        want["is_approval"] = int(o["ncat"] == 1 or (o["ncat"] == 2 and complete == 1))
+    for k, v in want.items():
+        if got[1].get(k) != v:
+            return "properties.basic.%s = %r on the autocorrected instance, %r from the ballot lines" % (k, got[1].get(k), v)
+    return None
+
+
+def check_cont(st, o, got):
+    """after append_order / append_order_list on the autocorrected instance: same normal form, one more voter per order"""
+    fn, orders = st["cont"]
+    if got[0] != 0:
+        return "%s on the autocorrected instance raised %r" % (fn, got[1:])
+    d = split_dump("ord", got[1]["dump"])
+    if got[1]["prefs"] != d["ballots"]:
+        return "after %s: instance.preferences lists %r but instance.orders lists %r" % (fn, got[1]["prefs"], d["ballots"])
+    want, first = {}, []
+    for mult, b in [(b[1], b[2]) for b in st["body"] if b[1] is not None] + \
+                   [(1, [[a] for a in x] if fn == "append_order" else x) for x in orders]:
+        e = proto.enc(b)
+        if e not in want:
+            first.append(e)
+        want[e] = want.get(e, 0) + mult
+    keys = [proto.enc(b) for b in d["ballots"]]
+    table = {proto.enc(b): k for b, k in d["mult"]}
+    if keys != first:
+        return "after %s: ballot list %r is not the list of first occurrences" % (fn, d["ballots"])
+    if table != want or len(d["mult"]) != len(want):
+        return "after %s: multiplicities %r, expected %r" % (fn, d["mult"], sorted(want.items()))
+    if d["nv"] != sum(want.values()) or d["nu"] != len(want) or d["na"] != len(d["alt_names"]):
+        return "after %s: counts (voters %d, unique %d, alternatives %d) vs (%d, %d, %d)" % (
+            fn, d["nv"], d["nu"], d["na"], sum(want.values()), len(want), len(d["alt_names"]))
+    if d["alt_names"][:len(o["alt_names"])] != o["alt_names"]:
+        return "after %s: existing names changed" % fn
+    return None
+
+
 def judge(c, r, mres):
     kind = "cat" if c["op"] == "c16.cat" else "ord"
     st = c["tags"].get("struct")
@@ -526,6 +651,10 @@ def judge(c, r, mres):
         for au, ri, mi in (("True", rT, mT), ("False", rF, mF)):
             if ri[0] != mi[0] or (ri[0] == 1 and ri[1] != mi[1]):
                 return "%s autocorrect=%s: implementation %r, model %r" % (where, au, ri[:2] if ri[0] else "ok", mi[:2] if mi[0] else "ok")
+            if ri[0] == 0 and kind == "ord" and ri[1]["prefs"] != split_dump(kind, ri[1]["dump"])["ballots"]:
+                return ("%s autocorrect=%s: instance.preferences lists %r but instance.orders lists %r (the two names "
+                        "of the ballot list must show the same ballots)"
+                        % (where, au, ri[1]["prefs"], split_dump(kind, ri[1]["dump"])["ballots"]))
             if ri[0] == 0:
                 df = same_instance(kind, ri[1]["dump"], mi[1])
                 if df and (au == "True" or mclean):
@@ -558,10 +687,18 @@ def judge(c, r, mres):
             rr = check_direct(kind, st, d)
             if rr:
                 return where + ": " + rr
-        # (4) sanity
+        # (4) sanity, basic statistics, continuation with append_order / append_order_list
         rr = bad_sanity(rT[1]["sanity"])
         if rr:
             return where + ": " + rr
+        if st is not None and not st.get("malformed"):
+            rr = check_basic(kind, st, o, rT[1]["basic"])
+            if rr:
+                return where + ": " + rr
+            if "cont" in rT[1]:
+                rr = check_cont(st, o, rT[1]["cont"])
+                if rr:
+                    return where + ": " + rr
         # (5) clean content
         if st is not None and st.get("clean") and not mclean:
             return {"kind": "broken-correspondence", "reason": "content generated as clean is not clean for the model"}
@@ -612,6 +749,10 @@ def stats(c, r, m):
             raws = [h[3] for h in st["hdr"] if h[0] == tag]
             if raws and max(raws.count(x) for x in raws) >= 12:
                 lab.append("%s name carried by >= 12 entries" % what)
+        if kind == "ord":
+            lab.append("ord preferences is orders=%d" % int(bool(r["strT"][1].get("alias"))))
+            if "cont" in r["strT"][1]:
+                lab.append("ord continued with %s" % st["cont"][0])
         nb = len([b for b in st["body"] if b[1] is not None])
         lab.append("ballot lines=%s" % (nb if nb <= 5 else ">5"))
         ra, rT = r["strT"][1]["dump"], r["strF"]
